@@ -172,6 +172,45 @@ def correction_everywhere(prog, res):
     res.need(R, 16)
 
 
+def dictionary_loaders_agree(prog, res):
+    """T9 (siblings): a dictionary too large to be indexed is cut to its end by ZSTD_loadDictionaryContent (index range, and
+    2^24-2 bytes when the CDict's indices carry a tag).  Every site that indexes dictionary content for the long distance
+    matcher on the side (ZSTD_ldm_fillHashTable: the single-thread loader and ZSTDMT's serial state, whose first job searches
+    the same dictionary through a CDict) must take the cut from the same routine: on every path to the fill, and in the
+    data flow of the start pointer it hands over.  Otherwise the LDM proposes matches in a part the block compressor's
+    dictionary does not hold, and the dictMatchState compressors read `base + (curr+1-offset)` with a wrapped index."""
+    R = "T9.dictionary-loaders-agree"
+    LIMIT = "ZSTD_maxDictContentSize"
+    n = 0
+    for f in prog.all_functions():
+        fills = f.call_roots("ZSTD_ldm_fillHashTable")
+        if not fills or f.name == "ZSTD_ldm_fillHashTable":
+            continue
+        lim = f.call_roots(LIMIT)
+        for t in fills:
+            n += 1
+            call = [c for c in walk(f.blocks[t[0]]["el"][t[1]]) if is_call(c, "ZSTD_ldm_fillHashTable")][0]
+            start = call["a"][1]
+            dep = any(is_call(y, LIMIT) for y in f.walk_deep(start))
+            if not dep:
+                for y in f.walk_resolved(start):
+                    if y.get("k") == "ref" and y.get("rk") in ("l", "sl"):
+                        for d in f.local_defs().get(y["n"], []):
+                            if d is not None and any(is_call(z, LIMIT) for z in f.walk_deep(d)):
+                                dep = True
+            ok = bool(lim) and f.must_pass(via_roots=lim, targets=[t]) and dep
+            res.check(ok, R, "%s@%s" % (f.name, call.get("l")), f.loc, "the LDM is filled from a start pointer cut by %s" % LIMIT,
+                      "%s fills the long distance matcher with dictionary content that is not cut by %s: with nbWorkers>=1, LDM, a raw prefix of more "
+                      "than 16 MiB and a fast/dfast level, the first job receives a match inside the part its CDict dropped and the dictMatchState "
+                      "block compressor dereferences a wrapped index (SEGV)" % (f.name, LIMIT))
+    g = prog.fn("ZSTD_loadDictionaryContent")
+    wu = g.call_roots("ZSTD_window_update")
+    lim = g.call_roots(LIMIT)
+    res.check(bool(wu) and bool(lim) and g.must_pass(via_roots=lim, targets=wu), R, "ZSTD_loadDictionaryContent:window", g.loc,
+              "the window is extended only by content cut by %s" % LIMIT, "ZSTD_loadDictionaryContent extends its window without consulting %s" % LIMIT)
+    res.need(R, 3)
+
+
 def preemptive_reset(prog, res):
     R = "T3.preemptive-index-reset"
     f = prog.fn("ZSTD_resetCCtx_internal")
@@ -242,6 +281,7 @@ def run(tier):
     tables_rebased(prog, res)
     correction_everywhere(prog, res)
     preemptive_reset(prog, res)
+    dictionary_loaders_agree(prog, res)
     cycle_log_callers(prog, res)
     from .C02 import overlap_trim            # shared clause: a wrapped input ring is trimmed out of the window on every update
     overlap_trim(prog, res)
